@@ -29,7 +29,7 @@ func declareAPI(r *Report, ids []string, mins map[string]int) aspectSet {
 
 func init() {
 	checks["C01"] = func(r *Report, p *Program, tier string) {
-		r.Explanation = "Decides, for all 32 request-issuing operations and all argument values at once, the structural facts the request bytes are a function of: the protocol layout of every request struct (L1-L5, L7 vs spec/wire.json), the function-code tables (L6), the wiring argument->offset incl. magic words, nil/partial maps and conditional clamps (A2-A4 vs spec/ops.json, path-sensitive over the regions cut by the comparison constants), the width/byte order/constant images of every field kind on the encode side (K1-K3), a fresh zeroed 64-byte buffer with byte 0 = 0x17 per Marshal call (K8), no package-level or client state written at run time (G1, IM1), one write per driver call (A2d). Not decided: that bcd.Encode∘time.Format yields the right digits for every date (B1-B3 decide the digit map; digit positions and package time are trusted), nor what package net does with the bytes."
+		r.Explanation = "Decides, for all 32 request-issuing operations and all argument values at once, the structural facts the request bytes are a function of: the protocol layout of every request struct (L1-L5, L7 vs spec/wire.json), the function-code tables (L6), the wiring argument->offset incl. magic words, nil/partial maps and conditional clamps (A2-A4 vs spec/ops.json, path-sensitive over the regions cut by the comparison constants), the width/byte order/constant images of every field kind on the encode side (K1-K3), a fresh zeroed 64-byte buffer with byte 0 = 0x17 per Marshal call (K8), no package-level or client state written at run time (G1, IM1), one write per driver call (A2d). The date and time encoders format the civil fields of the instant they are given and recognise 'no date' by the instant's own zero test, whatever location it carries (Z2, Z6). Not decided: that bcd.Encode∘time.Format yields the right digits for every date (B1-B3 decide the digit map; digit positions and package time are trusted), nor what package net does with the bytes."
 		r.Assumptions = []string{"go/packages, go/types, go/ssa (x/tools v0.29.0) represent the program faithfully", "spec/wire.json, spec/ops.json, spec/kinds.json state the UT0311-L0x protocol and API contract correctly", "time.Format emits the fixed digit counts of its layout verbs for years 0..9999", "binary.ByteOrder.PutUintNN writes exactly NN/8 bytes in that order"}
 		c := NewCodec(r, p, true)
 		if c == nil {
@@ -45,6 +45,12 @@ func init() {
 		RuleG1(r, p)
 		RuleTransport(r, p, aspectSet{"A2d": true, "RQ": true})
 		RuleFilter(r, p, aspectSet{"F1": true})
+		// BCD dates and times on the wire: the encoders format the civil fields of the instant they are given (Z2)
+		// and recognise 'no date' by the instant's own zero test, whatever location it carries (Z6)
+		r.Only = map[string]bool{"Z2": true, "Z6": true}
+		RuleZone(r, p, c)
+		RuleInstants(r, p)
+		r.Only = nil
 	}
 
 	checks["C02"] = func(r *Report, p *Program, tier string) {
@@ -97,7 +103,7 @@ func init() {
 	}
 
 	checks["C04"] = func(r *Report, p *Program, tier string) {
-		r.Explanation = "Decides a closed inventory of panic-capable constructs in the library's packages: every index/slice expression (P1, each discharged by a stated bound rule), tables indexed by values that can come from the wire (P2), unchecked type assertions (P3), explicit panics (P4), divisions and constant regular expressions (P5), stores into maps reached through a receiver (J5), field kinds and offsets of every shipped layout so that the codec's panic defaults and buffer slicing are unreachable (L2, L3), nil-receiver tolerance of decoders used through pointer fields (K11), header checks before any indexing (F4). The thorough tier cross-checks the inventory against the Go compiler's list of bounds checks it could not eliminate. Not decided: panics inside the standard library or reflect misuse outside these forms, stack exhaustion, general nil dereference of caller-supplied pointers."
+		r.Explanation = "Decides a closed inventory of panic-capable constructs in the library's packages: every index/slice expression (P1, each discharged by a stated bound rule), tables indexed by values that can come from the wire (P2), unchecked type assertions (P3), explicit panics (P4), divisions and constant regular expressions (P5), stores into maps reached through a receiver (J5), field kinds and offsets of every shipped layout so that the codec's panic defaults and buffer slicing are unreachable (L2, L3), nil-receiver tolerance of decoders used through pointer fields (K11), header checks before any indexing (F4), and the listener's shutdown order (LS5: the event pipe is closed only after its only sender, the driver's receive loop, has been awaited - a send on a closed channel panics). The thorough tier cross-checks the inventory against the Go compiler's list of bounds checks it could not eliminate. Not decided: panics inside the standard library or reflect misuse outside these forms, stack exhaustion, general nil dereference of caller-supplied pointers."
 		r.Assumptions = []string{"io contract: a read returns 0 <= n <= len(buffer)", "regexp.FindStringSubmatch returns nil or 1+groups entries", "fmt.Sprintf(\"%0Nv\") yields at least N characters", "codec.Marshal results are 64 bytes (rule K8)"}
 		c := NewCodec(r, p, false)
 		if c == nil {
@@ -110,6 +116,9 @@ func init() {
 		RuleK17(r, c)
 		ruleNilMapsDecl(r, p)
 		RuleF4(r, p)
+		// a send on a closed channel panics: the pipe is closed (deferred, when Listen returns) only after the
+		// driver's receive loop - the only sender - has been awaited
+		RuleListenOnly(r, p, map[string]bool{"LS5": true})
 	}
 
 	checks["C05"] = func(r *Report, p *Program, tier string) {
@@ -210,7 +219,7 @@ func init() {
 	}
 
 	checks["C11"] = func(r *Report, p *Program, tier string) {
-		r.Explanation = "Decides discovery end to end at the structural level: the collector goroutine appends every datagram until its socket is closed and the shared reply list/err are properly synchronised (T7, T8); the broadcast helper keeps a reply iff it is 64 bytes and decodes, preserves order and duplicates and never fails on a malformed reply (B11, enumerated over all accept/reject patterns of 3 replies); GetDevices maps every kept reply to its result entry with the port completed from the broadcast address (60000 by default) and the name of the matching configured controller (A4/A6 against spec/ops.json for 0, 1 and 2 replies); discovery goes out via the broadcast-all transport only (A2, R3). Not decided: timing of arrival against the window."
+		r.Explanation = "Decides discovery end to end at the structural level: the collector goroutine appends every datagram until its socket is closed and the shared reply list/err are properly synchronised (T7, T8); the broadcast helper keeps a reply iff it is 64 bytes and decodes, preserves order and duplicates and never fails on a malformed reply (B11, enumerated over all accept/reject patterns of 3 replies); GetDevices maps every kept reply to its result entry with the port completed from the broadcast address (60000 by default) and the name of the matching configured controller (A4/A6 against spec/ops.json for 0, 1 and 2 replies); discovery goes out via the broadcast-all transport only (A2, R3). What the helper hands to the decoder is accepted only with the protocol id its message type allows (F4). Not decided: timing of arrival against the window."
 		r.Assumptions = []string{"spec/ops.json states the documented mapping", "go/ssa is faithful"}
 		only := map[string]bool{"GetDevices": true}
 		RuleAPI(r, p, declareAPI(r, []string{"A0", "A2", "A3", "A4", "A6"}, map[string]int{"A0": 0, "A3": 2, "A4": 0}), only)
@@ -222,6 +231,9 @@ func init() {
 		// malformed datagrams never make the call fail: the codec (hex dump included) is handed every datagram,
 		// whatever its length, by the collector goroutine - its index and slice sites are discharged
 		RulePanicIn(r, p, tier, codecRel, map[string]int{"P1": 5})
+		// ... and never produce an entry: what the broadcast helper hands to the decoder is accepted only with the
+		// protocol id the message type allows (0x17; 0x19 for events only)
+		RuleF4(r, p)
 	}
 
 	checks["C12"] = func(r *Report, p *Program, tier string) {
@@ -242,13 +254,20 @@ func init() {
 	}
 
 	checks["C14"] = func(r *Report, p *Program, tier string) {
-		r.Explanation = "Decides the structural side of the text/JSON round trips: every hand-written JSON encoder has a decoder (J1); writer layouts/formats are accepted by the reader (J2: date, date-time incl. the zone-abbreviation fallback, HH:mm format vs pattern, PIN width 999999 vs {0,6}); numeric task-type bounds agree with the 13-entry table in both parsers (J3); control-state and weekday texts map back to the value that writes them (J4); decoders that store into a map behind their receiver establish it non-nil first (J5); HH:mm parsers enforce 00:00..24:00 with minutes <= 59 (K10); the four address types delegate to their role parser (AD0). Not decided: value-level equality decode(encode(v)) for every value, nor encoding/json's and time's parsing of arbitrary text (zone abbreviations etc.)."
+		r.Explanation = "Decides the structural side of the text/JSON round trips: every hand-written JSON encoder has a decoder (J1); writer layouts/formats are accepted by the reader (J2: date, date-time incl. the zone-abbreviation fallback, HH:mm format vs pattern, PIN width 999999 vs {0,6}); numeric task-type bounds agree with the 13-entry table in both parsers (J3); control-state and weekday texts map back to the value that writes them (J4); decoders that store into a map behind their receiver establish it non-nil first (J5); HH:mm parsers enforce 00:00..24:00 with minutes <= 59 (K10); the four address types delegate to their role parser (AD0). JSON dates are civil days: parsed outside the local zone only for their civil fields and never left at a local midnight the zone may lack (Z1, Z3). Not decided: value-level equality decode(encode(v)) for every value, nor encoding/json's and time's parsing of arbitrary text (zone abbreviations etc.)."
 		r.Assumptions = []string{"encoding/json and package time parse as documented", "go/ssa is faithful"}
 		RuleJSON(r, p)
 		RuleJSONStructs(r, p)
 		RuleInstants(r, p)
 		RuleK10(r, p)
 		RuleAddr(r, p)
+		// a date read from JSON is a civil day: parsed outside the local zone only for its civil fields (Z1), and never
+		// left at a local midnight that the zone may not have (Z3)
+		if c := NewCodec(r, p, false); c != nil {
+			r.Only = map[string]bool{"Z1": true, "Z3": true}
+			RuleZone(r, p, c)
+			r.Only = nil
+		}
 	}
 
 	checks["C15"] = func(r *Report, p *Program, tier string) {
